@@ -559,15 +559,14 @@ class JSONSchemaMaker:
                 }
             else:
                 json_schema["$anchor"] = node.unique_name
-                child_schema = {
-                    "type": "object",
-                    "properties": {
-                        c.unique_name: self.build_json_schema(
-                            c, path + (c.unique_name,)
-                        )
-                        for c in node.children
-                    },
-                }
+                child_schema = {"type": "object", "properties": {}}
+                # Children with REDEFINES add a oneOf to their parent's properties.
+                # For a repeating group, those properties belong to the items.
+                self.names[node.unique_name] = child_schema
+                for c in node.children:
+                    child_schema["properties"][c.unique_name] = self.build_json_schema(
+                        c, path + (c.unique_name,)
+                    )
             json_schema["items"] = child_schema
 
         elif node.children:
